@@ -25,7 +25,7 @@ def witness_search(tier, seed):
     import itertools
     from simfile.ssc import SSCSimfile, SSCChart
     import simfile
-    vals = [None, "", "a", "x:y", "a;b", "1"]
+    vals = [None, "", "a", "x:y", "a;b", "1", ":240", "::", ":TIME=1:LEN=2"]
     for notes, k, v in itertools.product(["", "1", "0000\n0000"], ["CREDIT", "ATTACKS", "DISPLAYBPM", "FOO"], vals):
         for notes_key, pos in itertools.product(("NOTES", "NOTES2"), ("last", "first")):
             ch = SSCChart()
@@ -37,6 +37,7 @@ def witness_search(tier, seed):
             for a, b in items:
                 ch[a] = b
             sf = SSCSimfile.blank()
+            sf[k] = v                      # the same property at simfile level
             sf.charts.append(ch)
             try:
                 text = str(sf)
